@@ -113,7 +113,12 @@ func (l *SplitListener) Start() error {
 		}
 
 		negProto := tlsConn.ConnectionState().NegotiatedProtocol
-		if nodeenrollment.ContainsKnownAlpnProto(negProto) {
+		// Only the fetch and authenticate protos are negotiated by the base
+		// listener's own handling; anything else, including a proto that merely
+		// carries the certificate preference prefix, came from the application's
+		// base TLS configuration and is not authenticated
+		if strings.HasPrefix(negProto, nodeenrollment.FetchNodeCredsNextProtoV1Prefix) ||
+			strings.HasPrefix(negProto, nodeenrollment.AuthenticateNodeNextProtoV1Prefix) {
 			if strings.HasPrefix(negProto, nodeenrollment.FetchNodeCredsNextProtoV1Prefix) {
 				// If it's the fetch proto, the TLS handshake should be all that is
 				// needed and the connection should be closed already. Close it for
